@@ -62,6 +62,11 @@ CHECKS = {
             "Every schedule of comparisons and mutations up to the length bound is executed by the real code and by an alias-free recorder; the value evaluated from the rewritten file must be the comparison-time value. Non-copyable values must raise UsageError and record nothing.",
             "9 mutable shapes incl. tuples/namedtuples holding lists; sequences of length <= 3 (quick) / 4 (thorough); create and fix-from-previous modes.",
             "DESIGN.md 5/C17"),
+    "C14": ("model_checking",
+            "exhaustive enumeration of event schedules (all interleavings of <= L evaluations over 2-3 call sites) x site placements x operation tuples, executed in scripted order by the real code; independent per-site fold as reference model",
+            "Every interleaving of evaluations over the call sites of a program (up to the length bound) is executed for every placement of the sites (same line, lambdas, nested functions, comprehension, helper, module-level shared, identical text in two files) and the per-site results are compared with a fold computed from the script alone; a changed argument must fail the test.",
+            "values {0,1,2}; L=3 quick / 4 thorough; cross-file sharing and parametrized tests through a real-plugin slice.",
+            "DESIGN.md 5/C14"),
 }
 
 NOT_APPLICABLE = {
